@@ -522,7 +522,25 @@ func genC08(g engine.G) *engine.Case {
 		// a NAMED parameter of interface type that nothing supplies: the
 		// redefined function has to declare it under exactly that type
 		it := engine.Pick(g, []int{engine.TypeI0, engine.TypeI1, engine.TypeAny})
-		t.In = append(t.In, engine.Label{Name: "zi", Type: it, Dyn: it, Tag: g.Bool()})
+		if g.Pct(60) {
+			t.In = append(t.In, engine.Label{Name: "zi", Type: it, Dyn: it, Tag: g.Bool()})
+		} else {
+			// a TYPE-ONLY interface parameter next to a parameter of an
+			// implementing type whose value is given to Redefine: the value
+			// later handed to the redefined function for the interface input
+			// must not take the place of that argument
+			impl := engine.Pick(g, engine.Implementers(it))
+			okT := true
+			for _, p := range t.In {
+				if !p.Named() && (p.Type == it || p.Type == impl) {
+					okT = false
+				}
+			}
+			if okT {
+				t.In = append(t.In, engine.Label{Type: it, Dyn: it}, engine.Label{Type: impl, Dyn: impl})
+				b.Sc.Inputs = append(b.Sc.Inputs, engine.Input{L: engine.Label{Type: impl, Dyn: impl}, Tok: 90})
+			}
+		}
 		if x.HasIn && g.Pct(75) {
 			x.InFilter = uniqInts(append(x.InFilter, it))
 		}
